@@ -957,6 +957,67 @@ func shutRunSim(t *testing.T, ksc KScenario, res *KResult) {
 	// every goroutine of the workload ends now; one that cannot (a call that no deadline and no context releases)
 	// makes the bubble report a leak - after the judge has named the call
 	s.wg.Wait()
+	s.checkDrained()
+}
+
+// checkDrained: (5) resources. Every connection the applications held has ended. Whatever else the transports still route -
+// closing-period handlers, connections created by delayed Initials or never accepted - goes away by its closing period, its
+// handshake timeout or its idle timeout. After the longest of those nothing may be left in a transport that is still open:
+// no routed connection ID, no closed-connection handler, no stateless-reset token (read through the overlay accessor
+// quic.VerifTransportTables).
+func (s *shutRun) checkDrained() {
+	if s.res.Failed() || s.res.Blocked != "" || !(s.on["C17"] || s.on["all"]) {
+		return
+	}
+	for k := 0; k < 2; k++ {
+		if c := s.sides[k].conn; c != nil && c.Context().Err() == nil {
+			s.res.Probe("tables-not-checked-a-connection-is-still-alive")
+			return
+		}
+	}
+	type tt struct {
+		name string
+		tr   *quic.Transport
+	}
+	var trs []tt
+	if !s.trClosed[0] {
+		trs = append(trs, tt{"client transport", s.nodes.CTr})
+	}
+	if !s.trClosed[1] {
+		trs = append(trs, tt{"server transport", s.nodes.STr})
+	}
+	s.mu.Lock()
+	for _, tr := range s.extraTr {
+		trs = append(trs, tt{"restarted server transport", tr})
+	}
+	s.mu.Unlock()
+	bound := max(s.cfgIdle[0], s.cfgIdle[1]) + 2*max(s.hsIdle[0], s.hsIdle[1]) + 10*time.Second
+	// closed-connection handlers stay for three PTOs of their connection, and a round-trip sample taken across an outage
+	// makes that long: allow for it generously (the handlers of connections the applications never saw have comparable ones)
+	for k := 0; k < 2; k++ {
+		if c := s.sides[k].conn; c != nil {
+			bound += 6 * shutPTO(c, 25*time.Millisecond)
+		}
+	}
+	t0 := time.Now()
+	for {
+		left := ""
+		for _, x := range trs {
+			if live, closed, tok := quic.VerifTransportTables(x.tr); live+closed+tok > 0 {
+				left = fmt.Sprintf("%s: %d connection IDs routed to connections, %d to closed-connection handlers, %d stateless-reset tokens", x.name, live, closed, tok)
+				break
+			}
+		}
+		if left == "" {
+			s.res.Probe("tables-drained")
+			return
+		}
+		if time.Since(t0) > bound {
+			s.report("(5) a transport still holds state of connections long after all of them have ended", "%s, %v after the last connection of the applications ended (cause %s/%s)", left, time.Since(t0), s.sc.Cause, s.sc.Base)
+			return
+		}
+		time.Sleep(250 * time.Millisecond)
+	}
 }
 
 func (s *shutRun) startSide(side int, conn *quic.Conn, end *shutEnd) {
